@@ -46,7 +46,8 @@ CONSTANTS
     MaxStrata,  \* number of strata of the main partition: 1..MaxStrata
     Xs,         \* sequence of values of the individual's attribute
     Mode,       \* "main": all main partitions and sizes, one individual, no second sample
-                \* "mev" : trivial main partition, all MEV partitions and sizes
+                \* "mev" : trivial main partition (one stratum, k = 1), all MEV partitions (of every
+                \*         non-empty subset of the ids into 1..2 strata) and sizes
                 \* "full": complete sampling only, all individuals in one behaviour, emitted
                 \* "lemma": as "main" (tiny table) + AcceptanceIsMembership
     Order       \* "any"   : Assemble may put the non-chosen alternatives in any order;
@@ -88,9 +89,7 @@ Reverse(s) == [i \in 1..Len(s) |-> s[Len(s) + 1 - i]]
 Inst(strata, mev) == [alts |-> AltTab, strata |-> strata, mev |-> mev]
 Instances ==
     CASE Mode \in {"main", "lemma"} -> {Inst(st, << >>) : st \in AllStrata(Ids, MaxStrata)}
-      [] Mode = "mev"  -> {Inst(<<St(Ids, k)>>, mv) :
-                              k \in {1, Cardinality(Ids)},
-                              mv \in UNION {AllStrata(M, 2) : M \in SUBSET Ids \ {{}}}}
+      [] Mode = "mev"  -> {Inst(<<St(Ids, 1)>>, mv) : mv \in UNION {AllStrata(M, 2) : M \in SUBSET Ids \ {{}}}}
       [] Mode = "full" -> UNION {{Inst(st, << >>), Inst(st, Reverse(st))} : st \in CompleteStrata(Ids, MaxStrata)}
 
 Ind(ch, x) == [choice |-> ch, x |-> x]
